@@ -41,7 +41,13 @@ class n0list_(list):
             raise_exception = False
             if_not_found = ''
         if any(char in xpath for char in "/["):
-            _parent_node, _node_name_index, cur_value, xpath_found_str, not_found_xpath_list = self._find(xpath, self, return_lists)
+            try:
+                _parent_node, _node_name_index, cur_value, xpath_found_str, not_found_xpath_list = self._find(xpath, self, return_lists)
+            except (ValueError, IndexError, TypeError, SyntaxError) as caught_ex:
+                # the same funnel as n0dict__._get(): an xpath that cannot be resolved is a miss
+                if raise_exception:
+                    raise caught_ex
+                return if_not_found
             if not not_found_xpath_list:
                 return cur_value
             else:
@@ -52,16 +58,11 @@ class n0list_(list):
         else:
             try:
                 return super(n0list_, self).__getitem__(n0eval(xpath))
-            except IndexError as ex:
+            except (IndexError, TypeError) as ex:
                 if raise_exception:
                     raise ex
                 else:
                     return if_not_found
-            except TypeError as ex:
-                n0error(ex)
-                n0debug("self")
-                n0debug_calc(n0eval(xpath), f"n0eval('{xpath}')")
-                raise ex
     # **************************************************************************
     # n0list_. get()
     # **************************************************************************
